@@ -303,7 +303,7 @@ struct Run {
         case 8:
             // every other pattern of the same rank with compatible static extents (both directions are reached: the
             // reverse conversion is the same operation in the target pattern's own cases)
-            for_each_target<Idx, VF_PLO + K * VF_PSTEP, 1000>([&]<typename F, std::size_t GF>() {
+            for_each_target<Idx, VF_PLO + K * VF_PSTEP, VF_CONV_EXT>([&]<typename F, std::size_t GF>() {
                 if (!shape_matches<F>(sh)) { return; } // precondition of the conversion
                 if constexpr (F::rank_dynamic() == RD) {
                     convert<F, E>(c, "extents(extents<Other>):same-rank_dynamic,other-positions", GF);
